@@ -78,7 +78,7 @@ func OptString(o *bgp.MarshallingOption) string {
 	ap := ""
 	for _, f := range AllFamilies {
 		if m, ok := o.AddPath[f]; ok && m != 0 {
-			ap += f.String() + ","
+			ap += f.String() + [...]string{"", "/recv-only", "/send-only", ""}[m&3] + ","
 		}
 	}
 	return fmt.Sprintf("{addpath:[%s] as2:%v ext:%v}", ap, o.Use2ByteAS, o.ExtendedMessage)
@@ -655,7 +655,7 @@ func NormalisePathIDs(m *bgp.BGPMessage, o *bgp.MarshallingOption) {
 	if !ok {
 		return
 	}
-	on := func(f bgp.Family) bool { return o != nil && o.AddPath != nil && o.AddPath[f] != 0 }
+	on := func(f bgp.Family) bool { return o != nil && o.AddPath != nil && o.AddPath[f]&bgp.BGP_ADD_PATH_SEND != 0 }
 	fix := func(f bgp.Family, l []bgp.PathNLRI) {
 		if on(f) {
 			return
